@@ -6,6 +6,7 @@ CONSTANTS
  Paths = {}
  Configs <- NoConfigs
  PlainAccepted = FALSE
+ ListenerSetterResetsAllowlist = FALSE
  MaxFaults = 1000000000
  MaxGets = 1000000000
  MaxBumps = 0
@@ -14,6 +15,6 @@ CONSTANTS
  ExitOnError = FALSE
  Serial = FALSE
  Contains <- ContainsLaw
-INVARIANTS TypeOK InvDocumentedSyntax InvBuildResult InvDecision InvNoLeak InvPerConnection InvListening InvServable
+INVARIANTS TypeOK InvDocumentedSyntax InvBuildResult InvAllowlistInForce InvDecision InvNoLeak InvPerConnection InvListening InvServable
 POSTCONDITION TraceAccepted
 CHECK_DEADLOCK FALSE
